@@ -38,9 +38,42 @@ def wakeup_paths(chk, m, K, Kconst):
     chk.note_fn(fn)
     now = ("ld", K.kptr("now"), 4)
     n = 0
+    # a parameter of get_next_wakeup stands for what fibre_scheduler_next passes (other callers - a peek API - are not the property's
+    # subject): when every call from the scheduler passes kernel.now, the parameter IS kernel.now
+    arg_is_now = {}
+    if fn.args:
+        try:
+            _, sps = fib.fn_paths(m, "fibre_scheduler_next")
+        except AnalysisError:
+            sps = []
+        seen = {}
+        for sp in sps:
+            stored_now = None
+            for e in sp.events:
+                if e.kind == "store" and e.ptr == K.kptr("now"):
+                    stored_now = strip_casts(e.val)
+                if e.kind == "call" and e.callee == "get_next_wakeup":
+                    for k_, a_ in enumerate(e.args or ()):
+                        a_ = strip_casts(a_)
+                        if stored_now is not None and a_ == stored_now:
+                            a_ = ("ld", K.kptr("now"))      # the value this path has just stored to kernel.now
+                        seen.setdefault(k_, set()).add(a_[:2])
+        for k_, vs in seen.items():
+            if vs == {("ld", K.kptr("now"))}:
+                arg_is_now[("arg", k_)] = True
+
+    def _sub(e):
+        if isinstance(e, tuple):
+            if e in arg_is_now:
+                return now + ((0, 0),)
+            return tuple(_sub(x) if isinstance(x, tuple) else x for x in e)
+        return e
     for p in ps:
         n += 1
         pid = "get_next_wakeup " + "->".join(b.lstrip("%") for b in p.blocks)
+        if arg_is_now:
+            p.ret = _sub(p.ret)
+            p.conds = [(_sub(c), t, i) for c, t, i in p.conds]
         r = strip_casts(p.ret)
         facts = {"atomic": None, "runq": None, "timerq": None}
         for q, (truth, k) in fib.queue_empty_facts(p, K).items():
